@@ -66,6 +66,43 @@ def setup_job(comm, cfile, layout, folder):
     return True
 
 
+def qn_job(comm, nprocs, npts, seed, out):
+    """The quasi-neutrality pipeline of the driver on a density with a NON-ZERO flux-surface average (the standard perturbation
+    averages to zero over theta): modes -> per-mode solve -> inverse transform, on the given process grid."""
+    from pygyro.model.grid import Grid
+    from pygyro.model.layout import getLayoutHandler, LayoutSwapper
+    from pygyro.poisson.poisson_solver import QuasiNeutralitySolver
+    from pygyro.initialisation.constants import Constants
+    from pygyro import splines as spl
+    rk = comm.Get_rank()
+    c = Constants()
+    dom = [[c.rMin, c.rMax], [0, 2 * np.pi], [c.zMin, c.zMax]]
+    per = [False, True, True]
+    nk = [n + 1 + 3 * (int(p) - 1) for n, p in zip(npts, per)]
+    bs = [spl.BSplines(spl.make_knots(np.linspace(*l, num=k), 3, p), 3, p, True) for l, k, p in zip(dom, nk, per)]
+    eta = [b.greville for b in bs]
+    grp = [{"v_parallel_2d": [0, 2, 1], "mode_solve": [1, 2, 0]}, {"v_parallel_1d": [0, 2, 1]}, {"poloidal": [2, 1, 0]}]
+    rem_phi = LayoutSwapper(comm, grp, [list(nprocs), nprocs[0], nprocs[1]], eta, "mode_solve")
+    rem_rho = getLayoutHandler(comm, grp[0], list(nprocs), eta)
+    phi = Grid(eta, bs, rem_phi, "mode_solve", comm, dtype=np.complex128)
+    rho = Grid(eta, bs, rem_rho, "v_parallel_2d", comm, dtype=np.complex128)
+    R = np.random.RandomState(seed).uniform(0.2, 1.0, npts)          # global density (r, theta, z), positive: non-zero average
+    lay = rem_rho.getLayout("v_parallel_2d")
+    rho.getAllData()[:] = np.transpose(R, (0, 2, 1))[lay.starts[0]:lay.ends[0], lay.starts[1]:lay.ends[1], :]
+    for chi in (0, 1):
+        qn = QuasiNeutralitySolver(eta, 7, bs[0], c, chi=chi)
+        r2 = Grid(eta, bs, rem_rho, "v_parallel_2d", comm, dtype=np.complex128)
+        r2.getAllData()[:] = rho.getAllData()
+        phi2 = Grid(eta, bs, rem_phi, "mode_solve", comm, dtype=np.complex128)
+        qn.getModes(r2)
+        r2.setLayout("mode_solve")
+        qn.solveEquation(phi2, r2)
+        phi2.setLayout("v_parallel_2d")
+        qn.findPotential(phi2)
+        lp = rem_phi.getLayout("v_parallel_2d")
+        out[rk].append((chi, [int(x) for x in lp.starts], [int(x) for x in lp.ends], np.array(phi2.getAllData()).copy()))
+
+
 def run(ctx):
     from mpi4py import MPI
     from harness import h5emu
@@ -120,6 +157,29 @@ def run(ctx):
                 same, dev = compare(read(mine, name), read(ser, name))
                 events.append({"k": "field", "what": name, "ok": bool(o["ok"]), "same": same, "err": o["fault"][:300]})
                 meta.append(dict(m0, what="field " + name, rel_dev=dev))
+        # the quasi-neutrality pipeline on a density with non-zero flux-surface average, every process grid against the serial run
+        qn_npts = [8, 8, 6]
+        ref = None
+        for g in [[1, 1]] + [x for x in grids if x != [1, 1] and x[0] <= qn_npts[0] and x[0] <= qn_npts[1] and x[1] <= qn_npts[2]]:
+            n = int(np.prod(g))
+            out = [[] for _ in range(n)]
+            rs = MPI.run(n, qn_job, policy="random", seed=rng.randint(0, 999), args=(g, qn_npts, 5, out))
+            full = {}
+            if rs.ok:
+                for o in out:
+                    for chi, st, en, blk in o:
+                        A = full.setdefault(chi, np.zeros([qn_npts[0], qn_npts[2], qn_npts[1]], dtype=complex))
+                        A[st[0]:en[0], st[1]:en[1], st[2]:en[2]] = blk
+            if g == [1, 1]:
+                ref = full
+            for chi in (0, 1):
+                same, dev = False, -1.0
+                if rs.ok and ref and chi in full and chi in ref:
+                    sc = float(np.max(np.abs(ref[chi]))) or 1.0
+                    dev = float(np.max(np.abs(full[chi] - ref[chi]))) / sc
+                    same = dev <= 1e-12
+                events.append({"k": "field", "what": "potential of the quasi-neutrality pipeline, chi=%d" % chi, "ok": bool(rs.ok), "same": same, "err": rs.describe()})
+                meta.append({"iota": 0.8, "nprocs": g, "npts": qn_npts, "what": "QN pipeline on a density with non-zero average, chi=%d" % chi, "rel_dev": dev})
         # the three starting layouts on every process grid
         from pygyro.initialisation import setups
         orig = setups.compute_2d_process_grid
